@@ -61,7 +61,9 @@ def gen_worlds(rng, n):
 
 
 ALL_ARCHETYPES = " ".join("%d:1" % m for m in range(1, 16))      # every non-empty shape over the four components
-FIXED_WORLDS = ["3:1", "3:2 1:1 2:1", "15:2", "1:1 2:1 4:1 8:1", "5:1 10:1 15:1"]
+# every shape created and emptied again (insert, remove): the tables exist and hold no rows
+ALL_EMPTIED = " ".join("%d:0" % m for m in range(1, 16))
+FIXED_WORLDS = ["3:1", "3:2 1:1 2:1", "15:2", "1:1 2:1 4:1 8:1", "5:1 10:1 15:1", "3:0 5:0", "3:0 5:1 6:0"]
 
 
 def gen_cases(seed, tier, fam):
@@ -69,7 +71,7 @@ def gen_cases(seed, tier, fam):
     nworlds = 3 if tier == "quick" else 12
     cases = []
     for k in range(len(fam)):
-        worlds = ["", ALL_ARCHETYPES] + [rng.choice(FIXED_WORLDS)] + gen_worlds(rng, nworlds)
+        worlds = ["", ALL_ARCHETYPES, ALL_EMPTIED] + [rng.choice(FIXED_WORLDS)] + gen_worlds(rng, nworlds)
         for spec in worlds:
             runs = [(1, 0, 4), (2, 0, 4), (3, rng.next() & 0xFFFFFFFF, 4), (0, 0, 1), (0, 0, 4)]
             if tier != "quick":
